@@ -322,6 +322,7 @@ def impl_run(exe, work, tag, flat, divpairs, sweeps):
         cases.append(Case('fns%d' % i, [], ['sweep %d %d %s' % (lo, hi, ' '.join(map(str, ms)))]))
     res = run_parallel(exe, cases, work, tag)
     errors = []
+    died = []       # (case prefix, index of the pair whose call did not return, how the process ended)
 
     def vals(prefix, n):
         out = []
@@ -341,6 +342,9 @@ def impl_run(exe, work, tag, flat, divpairs, sweeps):
                     # the case died (abort/fault/timeout) part way
                     errors.append('case %s%d ended with %r after %d of %d calls' % (
                         prefix, i, lines[-1] if lines else '', len(got), want))
+                    bad_at = next((j for j, v in enumerate(got) if v is None), len(got))
+                    if lines and lines[-1].split()[0] in ('fault', 'abort', 'timeout') and bad_at < want:
+                        died.append((prefix, len(out) + bad_at, lines[-1].split()[0]))
                 got += [None] * (want - len(got))
                 out += got
             i += 1
@@ -369,7 +373,7 @@ def impl_run(exe, work, tag, flat, divpairs, sweeps):
             viol.append((k, m, r))
         if int(d['viol']) and not w[4:]:
             errors.append('sweep %d reports violations without witnesses' % i)
-    return mul, div, env, dict(calls=calls, top=top, viol=viol), errors
+    return mul, div, env, dict(calls=calls, top=top, viol=viol, died=died), errors
 
 
 # ------------------------------------------------------------------ (b) scenarios
@@ -615,7 +619,7 @@ def main(tier, seed, replay=None):
         f1 = ex.submit(impl_run, built['hashfn'], work, 'ia', flat, divpairs, sweeps)
         f2 = ex.submit(impl_run, built['hashfn_o2'], work, 'ib', flat, divpairs, [])
         i_mul, i_div, env, sweep, ierr = f1.result()
-        o_mul, o_div, env2, _, ierr2 = f2.result()
+        o_mul, o_div, env2, sweep_o2, ierr2 = f2.result()
         if fm is not None:
             m_mul, m_div, phi_model, merr, nshards = fm.result()
         else:
@@ -655,6 +659,23 @@ def main(tier, seed, replay=None):
         notes.append('the literal assigned to phi in %s/src/hash.c is %r; the model was written for 1.61803398875f' % (core.REPO, lit))
     for e in merr + ierr + ierr2:
         notes.append('run error: ' + e.strip().replace('\n', ' | ')[:600])
+
+    # a call of a built-in hash function that does not return at all (trap, abort, endless loop)
+    for drv, sw_ in (('drv_hashfn', sweep), ('drv_hashfn_o2', sweep_o2)):
+        for prefix, idx, how in sw_.get('died', [])[:1]:
+            fn = 'mul' if prefix == 'fnm' else 'div'
+            k, m = (flat if fn == 'mul' else divpairs)[idx]
+            key = '%s:does-not-return' % fn
+            if key in known:
+                known_hits.append((key, known[key], 1))
+                continue
+            if any(v[1].startswith('cstl_hash_%s(' % fn) and 'did not return' in v[1] for v in violations):
+                continue
+            rp = new_replay(
+                '# property %s violated on the implementation (%s): cstl_hash_%s(%d, %d) did not return a value: the process ended in %s\n'
+                '# key: %s\n# replay: ./check %s --replay %s\ncase fn_violation\n%s %d %d\nend\n' % (
+                    PID, drv, fn, k, m, how, key, PID, core.replay_path(PID, nrep[0]), fn, k, m))
+            violations.append((rp, 'cstl_hash_%s(%d, %d) did not return (%s)' % (fn, k, m, how), True))
 
     # property violations of part (a)
     if range_viol:
